@@ -250,3 +250,92 @@ func vh_C12_close_race() {
 		vAssert((cerr == nil) != (oerr == nil), "of two Close calls exactly one wins")
 	}
 }
+
+// ---- sequential transfers against a peer that serves a finite file in short
+// reads and may fail one data request (added after seeded change C12-b)
+
+var (
+	vC12Size     int // remote file size for READ
+	vC12FailAt   int // index of the READ/WRITE that fails (-1: none)
+	vC12DataReqs int
+	vC12Moved    int64 // bytes delivered in DATA replies / accepted by OK'd WRITEs
+	vC12Base     int64 // File offset when the call started
+	vC12Contig   bool  // every data request started at base+moved
+)
+
+func vC12FailingPeer(typ byte, body []byte) (fxp, []byte) {
+	id := body[:4]
+	switch typ {
+	case sshFxpRead, sshFxpWrite:
+		_, rest := vBodyStr(body[4:])
+		off := int64(vBE64(rest))
+		if off != vC12Base+vC12Moved {
+			vC12Contig = false
+		}
+		k := vC12DataReqs
+		vC12DataReqs++
+		if k == vC12FailAt {
+			return vStatusReply(id, sshFxFailure)
+		}
+		if typ == sshFxpWrite {
+			vC12Moved += int64(vBE32(rest[8:]))
+			return vStatusReply(id, sshFxOk)
+		}
+		pos := off - vC12Base
+		if pos >= int64(vC12Size) {
+			return vStatusReply(id, sshFxEOF)
+		}
+		n := int64(vBE32(rest[8:]))
+		if n > 2 {
+			n = 2 // short reads
+		}
+		if n > int64(vC12Size)-pos {
+			n = int64(vC12Size) - pos
+		}
+		vC12Moved += n
+		return sshFxpData, append(append(append([]byte{}, id...), 0, 0, 0, byte(n)), make([]byte, n)...)
+	}
+	return vStatusReply(id, sshFxOk)
+}
+
+// Read, Write, ReadFrom and WriteTo on their sequential paths: requests start at
+// the current offset and continue contiguously, and the offset ends up advanced by
+// exactly the bytes the peer delivered or accepted - also when one request fails.
+func vh_C12_offsets_failing() {
+	f, c := vC12File()
+	defer vPeerDone(c)
+	vPeer = vC12FailingPeer
+	cur := int64(vNondetU32())
+	f.offset = cur
+	vC12Base, vC12Moved, vC12DataReqs, vC12Contig = cur, 0, 0, true
+	vC12Size = vChoice(7)
+	vC12FailAt = vChoice(5) - 1
+	n := vChoice(10)
+	b := make([]byte, n)
+	op := vChoice(4)
+	var got int64
+	var err error
+	switch op {
+	case 0:
+		var m int
+		m, err = f.Read(b)
+		got = int64(m)
+	case 1:
+		var m int
+		m, err = f.Write(b)
+		got = int64(m)
+	case 2:
+		_, err = f.ReadFrom(&vReader{data: b}) // no Len(): the sequential loop
+		got = vC12Moved
+	case 3:
+		got, err = f.WriteTo(&vBuf{})
+	}
+	vAssert(vC12Contig, "every data request of a sequential transfer starts at the current offset plus the bytes moved so far")
+	vAssert(f.offset == cur+vC12Moved, "the offset advances by exactly the bytes transferred, also when a request fails")
+	vAssert(got == vC12Moved, "the returned count is the number of bytes transferred")
+	if vC12FailAt >= 0 && vC12DataReqs > vC12FailAt {
+		vAssert(err != nil, "a failed data request is reported")
+	}
+	vEmit("op", op)
+	vEmit("moved", vC12Moved)
+}
